@@ -24,10 +24,10 @@ let split_on c s = SL.map SS.trim (SS.split_on_char c s)
 let words s = SL.filter (fun w -> w <> "") (SS.split_on_char ' ' (SS.trim s))
 
 let tag w = if SS.length w > 1 then zi (int_of_string (SS.sub w 1 (SS.length w - 1))) else zi 0
-let oop_of w = match w.[0] with
+let oop_of w = match SS.get w 0 with
   | 'P' -> Push (tag w) | 'O' -> Pop | 'U' -> Put (tag w)
   | _ -> failwith ("bad owner op " ^ w)
-let top_of w = match w.[0] with
+let top_of w = match SS.get w 0 with
   | 'T' -> Take | 'W' -> WTake (w = "W1") | 'S' -> Pass (tag w) | 'K' -> Peek
   | _ -> failwith ("bad thief op " ^ w)
 
